@@ -22,9 +22,9 @@ func init() {
 		Run: runRootFields})
 	Register(&Rule{ID: "CTOR", Props: []string{"C01", "C05"}, Min: 20,
 		Doc: "every function-typed field of Mast that is called without a dominating nil test is non-nil on every path to every success return of every constructor (dataflow with nil-test refinement; `assigned from the config, replaced when nil` is accepted); " +
-			"LoadMast initialises every other Mast field except the tabled `debug` from the Root or the RemoteConfig.",
+			"LoadMast initialises every other Mast field except the tabled per-session marks `debug` and `emptied` (zero value = right start) from the Root or the RemoteConfig.",
 		Run: runCtor})
-	Register(&Rule{ID: "CODECSYM", Props: []string{"C05"}, Min: 12,
+	Register(&Rule{ID: "CODECSYM", Props: []string{"C05", "C19"}, Min: 12,
 		Doc: "the binary encoder and decoder visit Key, Value, Link in the same order with paired primitives (marshalled elements↔decodeEfaceSlice, string links↔decodeStringSlice, PutUvarint↔Uvarint); Key is decoded with the type of zeroKey and Value with zeroValue in both decoders; " +
 			"every decoder restores a dropped link list as len(Key)+1 nil links and only then; a zero length decodes to nil (the encoder writes length 0 for nil links).",
 		Run: runCodecSym})
@@ -690,7 +690,7 @@ func runCtor(c *Ctx) {
 		c.Undecided(fn, c.P.Pos(fn.Pos()), "constructed Mast", "LoadMast does not build its Mast in a local")
 		return
 	}
-	tabled := map[string]bool{"debug": true}
+	tabled := map[string]bool{"debug": true, "emptied": true} // per-session state whose zero value is the right start (never set under test / not emptied since loaded)
 	okParam := map[*ssa.Parameter]bool{}
 	for _, p := range fn.Params {
 		if ir.IsPtrToNamed(p.Type(), "Root") || ir.IsPtrToNamed(p.Type(), "RemoteConfig") || ir.IsNamed(p.Type(), "RemoteConfig") {
@@ -1157,6 +1157,7 @@ func runCodecSym(c *Ctx) {
 		} else {
 			var cur ssa.Value = buf
 			var got []visit
+			var decodeCalls []*ssa.Call
 			idx := 0
 			for steps := 0; steps < 8 && cur != nil; steps++ {
 				var call *ssa.Call
@@ -1169,6 +1170,7 @@ func runCodecSym(c *Ctx) {
 					break
 				}
 				callee := ir.Callee(call.Call)
+				decodeCalls = append(decodeCalls, call)
 				info := sliceDecoder(callee)
 				target := "?"
 				for _, a := range call.Call.Args[1:] {
@@ -1220,6 +1222,25 @@ func runCodecSym(c *Ctx) {
 					if e, ok := r.(*ssa.Extract); ok && e.Index == 0 {
 						cur = e
 					}
+				}
+			}
+			// DECODEALL: every success return is preceded, on every path, by all list decodes
+			for _, r := range fxSuccessReturns(dec) {
+				missed := ""
+				for i, dc := range decodeCalls {
+					if !ir.Before(dc, r) {
+						t := fmt.Sprint(i)
+						if i < len(got) {
+							t = "node." + got[i].field
+						}
+						missed = t
+						break
+					}
+				}
+				if missed != "" {
+					c.Violation(dec, c.P.InstrPos(r), "success before all lists are decoded", "the node decoder can return success without having decoded "+missed+": a node truncated there loads with that list missing (restored as nil links / empty) instead of being rejected")
+				} else {
+					c.OK(c.P.InstrPos(r), "success return of "+dec.Name(), fmt.Sprintf("preceded by all %d list decodes", len(decodeCalls)), false)
 				}
 			}
 			if err == nil && len(got) < len(enc) {
@@ -1304,6 +1325,9 @@ func runCodecSym(c *Ctx) {
 	restoreCheck(c)
 	// 4. zero length ↔ nil
 	zeroLenCheck(c, dec)
+	// 5. primitives: a fresh body cell per element, lengths only from Uvarint
+	bodyFreshCheck(c, dec)
+	lengthPrimCheck(c, dec)
 }
 
 // linkEmptyAssume assumes node.Link is empty (or non-empty).
@@ -1758,4 +1782,231 @@ func currentFormats(c *Ctx) []string {
 		}
 	}
 	return out
+}
+
+// innermostLoopHeader finds the header of the innermost natural loop
+// containing block b (nil if b is not in a loop).
+func innermostLoopHeader(b *ssa.BasicBlock) *ssa.BasicBlock {
+	for d := b; d != nil; d = d.Idom() {
+		for _, p := range d.Preds {
+			if d.Dominates(p) && (p == b || ir.CanReach(b, p)) {
+				return d
+			}
+		}
+	}
+	return nil
+}
+
+// bodyFreshCheck (BODYFRESH): the bytes decoder leaves its out-parameter
+// untouched for a zero length, so the variable handed to it must be a fresh
+// (nil) cell for every element: declared inside the loop, or reset to nil
+// before each call. Otherwise an empty-encoded element decodes as a copy of
+// the previous one.
+func bodyFreshCheck(c *Ctx, dec *ssa.Function) {
+	if dec == nil {
+		return
+	}
+	seen := map[*ssa.Call]bool{}
+	var fns []*ssa.Function
+	for fn := range c.Facts.Reach(dec) {
+		fns = append(fns, fn)
+	}
+	sort.Slice(fns, func(i, j int) bool { return fns[i].Pos() < fns[j].Pos() })
+	for _, fn := range fns {
+		for _, call := range staticCallsIn(fn) {
+			if seen[call] || bytesDecoder(ir.Callee(call.Call)) == nil || len(call.Call.Args) != 2 {
+				continue
+			}
+			seen[call] = true
+			h := innermostLoopHeader(call.Block())
+			if h == nil {
+				continue
+			}
+			construct := "body cell of " + fn.Name()
+			cell, ok := call.Call.Args[1].(*ssa.Alloc)
+			if !ok {
+				c.Undecided(fn, c.P.InstrPos(call), construct, "the out-parameter handed to the bytes decoder in a loop is not a local variable")
+				continue
+			}
+			fresh := h.Dominates(cell.Block()) && cell.Parent() == fn
+			if !fresh && cell.Referrers() != nil {
+				for _, rf := range *cell.Referrers() {
+					if st, ok := rf.(*ssa.Store); ok && st.Addr == ssa.Value(cell) && ir.IsNilConst(st.Val) && h.Dominates(st.Block()) && ir.Before(st, call) {
+						fresh = true
+					}
+				}
+			}
+			if fresh {
+				c.OK(c.P.InstrPos(call), construct, "a fresh nil cell for every element (declared in the loop or reset before the call)", false)
+			} else {
+				c.Violation(fn, c.P.InstrPos(call), construct, "the body variable is shared by all iterations and the bytes decoder leaves it untouched for a zero length: an empty-encoded element (nil link, empty value) decodes as a copy of the previous element")
+			}
+		}
+	}
+}
+
+// lengthPrimCheck (LENPRIM): in the function that reads a length, the length
+// it yields is result #0 of binary.Uvarint and the rest of the buffer starts
+// at result #1, on every path — no other arithmetic on buffer bytes produces
+// a length.
+func lengthPrimCheck(c *Ctx, dec *ssa.Function) {
+	if dec == nil {
+		return
+	}
+	var fns []*ssa.Function
+	for fn := range c.Facts.Reach(dec) {
+		if lengthDecoder(fn) != "" {
+			fns = append(fns, fn)
+		}
+	}
+	sort.Slice(fns, func(i, j int) bool { return fns[i].Pos() < fns[j].Pos() })
+	for _, fn := range fns {
+		buf := byteSliceParam(fn)
+		var uv *ssa.Call
+		for _, cl := range staticCallsIn(fn) {
+			if n := fxFullName(ir.Callee(cl.Call)); n == "encoding/binary.Uvarint" || n == "encoding/binary.Varint" {
+				uv = cl
+			}
+		}
+		if uv == nil || buf == nil {
+			continue
+		}
+		fromUv := func(v ssa.Value, idx int) bool {
+			e, ok := fxStrip(v).(*ssa.Extract)
+			return ok && e.Tuple == ssa.Value(uv) && e.Index == idx
+		}
+		bad := false
+		// lengths stored through an *int parameter
+		for _, b := range fn.Blocks {
+			for _, ins := range b.Instrs {
+				st, ok := ins.(*ssa.Store)
+				if !ok {
+					continue
+				}
+				if p, ok := st.Addr.(*ssa.Parameter); ok && p != buf {
+					if !fromUv(st.Val, 0) {
+						bad = true
+						c.Violation(fn, c.P.InstrPos(st), "decoded length", "a length is produced as "+ir.Sym(st.Val)+", not as the value binary.Uvarint decoded: lengths written by PutUvarint are read back differently on this path")
+					}
+				}
+			}
+		}
+		for _, r := range fxSuccessReturns(fn) {
+			for _, res := range r.Results {
+				switch {
+				case isByteSlice(res.Type()):
+					sl, ok := res.(*ssa.Slice)
+					if !ok || fxStripNoConv(sl.X) != ssa.Value(buf) || sl.Low == nil || !fromUv(sl.Low, 1) || sl.High != nil {
+						bad = true
+						c.Violation(fn, c.P.InstrPos(r), "rest of buffer", "the remaining buffer is "+ir.Sym(res)+", not buf[n:] with n the byte count binary.Uvarint consumed")
+					}
+				case ir.IsErrorType(res.Type()):
+				default:
+					if b, ok := res.Type().Underlying().(*types.Basic); ok && b.Info()&types.IsInteger != 0 && !fromUv(res, 0) {
+						bad = true
+						c.Violation(fn, c.P.InstrPos(r), "decoded length", "a length is returned as "+ir.Sym(res)+", not as the value binary.Uvarint decoded")
+					}
+				}
+			}
+		}
+		if !bad {
+			c.OK(c.P.Pos(fn.Pos()), "length primitive only in "+fn.Name(), "length = Uvarint #0, rest = buf[Uvarint #1:] on every path", false)
+		}
+		lenBoundCheck(c, fn, uv, buf)
+	}
+}
+
+// armLenBound arms the LENBOUND clause below. Today's decodeLength narrows the
+// Uvarint to int without comparing it with the bytes that remain (a length
+// ≥ 2^63 turns negative and make panics during LoadMast), so the clause is
+// recorded as a note only; once /repo has the repair
+//
+//	if k > uint64(len(buf)-n) { return nil, errors.New("bad length") }
+//
+// set this to true and its removal becomes a violation.
+const armLenBound = false
+
+// lenBoundCheck (LENBOUND): the narrowing of Uvarint's result #0 to int is
+// dominated by a comparison of that result with a quantity derived from
+// len(buf) whose failing side reaches only error returns. The bound is a
+// run-time quantity, not a constant.
+func lenBoundCheck(c *Ctx, fn *ssa.Function, uv *ssa.Call, buf *ssa.Parameter) {
+	isK := func(v ssa.Value) bool {
+		e, ok := fxStrip(v).(*ssa.Extract)
+		return ok && e.Tuple == ssa.Value(uv) && e.Index == 0
+	}
+	isLenBuf := func(v ssa.Value) bool {
+		a, ok := lenArg(v)
+		return ok && fxStripNoConv(a) == ssa.Value(buf)
+	}
+	// the narrowing conversions of k
+	var convs []*ssa.Convert
+	for _, b := range fn.Blocks {
+		for _, ins := range b.Instrs {
+			if cv, ok := ins.(*ssa.Convert); ok && isK(cv.X) {
+				if tb, ok := cv.Type().Underlying().(*types.Basic); ok && tb.Info()&types.IsInteger != 0 && tb.Info()&types.IsUnsigned == 0 {
+					convs = append(convs, cv)
+				}
+			}
+		}
+	}
+	if len(convs) == 0 {
+		return
+	}
+	errorOnly := func(from *ssa.BasicBlock) bool {
+		reach := ir.ReachableFrom(from, nil)
+		n := 0
+		for _, r := range ir.Returns(fn) {
+			if reach[r.Block()] {
+				n++
+				ei := ir.ErrorResultIndex(fn.Signature)
+				if ei < 0 || ei >= len(r.Results) || ir.IsNilConst(r.Results[ei]) {
+					return false
+				}
+			}
+		}
+		return n > 0
+	}
+	for _, cv := range convs {
+		bounded := false
+		for _, f := range ir.FactsAt(cv.Block()) {
+			bin, ok := f.Cond.(*ssa.BinOp)
+			if !ok {
+				continue
+			}
+			switch bin.Op {
+			case token.LSS, token.LEQ, token.GTR, token.GEQ:
+			default:
+				continue
+			}
+			var other ssa.Value
+			if isK(bin.X) {
+				other = bin.Y
+			} else if isK(bin.Y) {
+				other = bin.X
+			} else {
+				continue
+			}
+			if !mentionsValue(other, isLenBuf, 0) {
+				continue
+			}
+			// the side not taken towards the conversion must reject
+			fail := f.From.Succs[0]
+			if f.Truth {
+				fail = f.From.Succs[1]
+			}
+			if errorOnly(fail) {
+				bounded = true
+			}
+		}
+		pos := c.P.InstrPos(cv)
+		switch {
+		case bounded:
+			c.OK(pos, "length bound in "+fn.Name(), "the decoded length is compared with the bytes remaining before it is narrowed to int", false)
+		case armLenBound:
+			c.Violation(fn, pos, "length bound", "the decoded length is narrowed to int without being compared with the bytes that remain: a huge length turns negative (or enormous) and the caller's make panics instead of the load failing")
+		default:
+			c.Note("LENBOUND (not armed): %s narrows the Uvarint to int at %s without comparing it with the remaining bytes; a length ≥ 2^63 becomes negative and make panics in the list decoder", fn.Name(), pos)
+		}
+	}
 }
